@@ -86,8 +86,11 @@ func schedCase(rng *rand.Rand, w *Writer, suite string, kind string, canonical i
 	switch canonical {
 	case 1: // both handlers read the device before either writes; then the first runs on, then the second
 		sched = []bool{false, true}
-	case 2: // second frame first, strictly alternating through the counter writes, then the first frame runs on
+	case 2: // second frame first, alternating through the counter writes; the second frame then runs on and the first finishes last
 		sched = []bool{true, false, true, false}
+		for i := 0; i < 26; i++ {
+			sched = append(sched, true)
+		}
 	default:
 		for i := 0; i < 30; i++ {
 			sched = append(sched, rng.Intn(2) == 0)
